@@ -15,3 +15,23 @@ pub fn xen_flag_words_accepted_are_exactly_four() {
         }
     }
 }
+
+// the REAL entry point (MmapXen::new, reached from MmapRegion::from_range) over all 2^32 flag words: a
+// range without a backing file never reaches the OS, so what is observed is exactly the flag validation --
+// an unknown or contradictory word is refused with MmapFlags(word), a valid word gets past validation
+// (and then fails for the missing file / protection, which is not a flag error).
+#[kani::proof]
+#[kani::unwind(4)]
+pub fn xen_new_refuses_every_other_flag_word() {
+    let w: u32 = kani::any();
+    let size: usize = kani::any();
+    let range = MmapRange::new(size, None, GuestAddress(kani::any()), w, kani::any());
+    let r = MmapXen::new(&range);
+    let valid = w == 0x0 || w == 0x1 || w == 0x2 || w == 0xA;
+    match &r {
+        Err(Error::MmapFlags(x)) => assert!(!valid && *x == w, "C15: a valid Xen flag word was refused as a flag error (or the error names another word)"),
+        Err(_) => assert!(valid, "C15: an unknown or contradictory Xen flag word must be refused with MmapFlags(word) before anything else happens"),
+        Ok(_) => assert!(false, "C15: a Xen region without backing file / protection cannot be built"),
+    }
+    std::mem::forget(r);
+}
